@@ -165,8 +165,9 @@ def run(ctx):
                  consts(["a"], [16, 17], 2, 3, 0, 0, ["gen"]),
                  consts(["a"], [16, 17], 1, 4, 0, 0, ["gen"]),
                  consts(["a", "b"], [16, 17], 1, 3, 0, 0, ["gen"]),
-                 # the proposed patch: strict convergence, a file changing at most once per scan
-                 consts(["a"], [16, 17], 1, 4, 0, 0, ["gen"], fix="TRUE", one="TRUE")]
+                 # the proposed patch: every invariant incl. the strict forms, a file changing at most once per scan
+                 consts(["a"], [16, 17], 1, 4, 0, 0, ["gen"], fix="TRUE", one="TRUE", gap="TRUE"),
+                 consts(["a", "b"], [16, 17], 1, 3, 0, 0, ["gen"], fix="TRUE", one="TRUE", gap="TRUE")]
     shapes = [(["a", "b"], [16, 17], 2, 3, ctx.pick(6, 8))]
     if ctx.thorough:
         shapes.append((["a"], [16, 17, 18], 2, 4, 7))
@@ -178,7 +179,7 @@ def run(ctx):
     jobs = []
     for i, c in enumerate(mruns):
         jobs.append(("m%d" % i, lambda c=c, i=i: ctx.model_check(
-            "Reload", "Reload_strict.cfg" if c["Fix"] == "TRUE" else "Reload_mc.cfg", name="tlc_m%d" % i, timeout=7200,
+            "Reload", "Reload_fix.cfg" if c["Fix"] == "TRUE" else "Reload_mc.cfg", name="tlc_m%d" % i, timeout=7200,
             workers=ctx.pick(2, 4), coverage=cov and i == 0, defines=c)))
     for i, (repos, fmts, procs, mops, mdepth) in enumerate(shapes):
         jobs.append(("e%d" % i, lambda a=(repos, fmts, procs, mops, mdepth), i=i: ctx.model_check(
@@ -270,7 +271,7 @@ def run(ctx):
         raise vk.Inconclusive("replay trace incomplete")
     total_events = len(events)
     nontrivial = 0
-    plan = [("race", bg["race"], ctx.pick(2, 16), ctx.pick(50, 120)), ("plain", bg["bin"], ctx.pick(1, 8), ctx.pick(60, 200))]
+    plan = [("race", bg["race"], ctx.pick(3, 16), ctx.pick(80, 120)), ("plain", bg["bin"], ctx.pick(2, 8), ctx.pick(120, 200))]
 
     def stress(name, binp, rounds, ops):
         tp = ctx.path("trace_stress_%s.ndjson" % name)
